@@ -12,6 +12,8 @@ import hashlib
 import itertools
 import os
 
+from . import norm as _norm
+
 PKG = "tsdate"
 
 
@@ -41,6 +43,9 @@ class Mod:
             self.tree = ast.parse(src, filename=path)
         except SyntaxError as e:
             raise AnalysisError(f"{path} does not parse: {e}") from e
+        # canonicalise presentation (drop `pass`, inline single-use temporaries, recover renamed
+        # locals) before any rule looks at the tree -- see norm.py
+        self.norm = _norm.normalise(self.tree, name) if os.environ.get("VERIF_NO_NORM") != "1" else {}
         self.funcs = {}  # dotted qualname -> FunctionDef
         self.classes = {}  # name -> ClassDef
         self.parent = {}  # ast node -> parent node
